@@ -207,12 +207,25 @@ func (h *c40Hist) pair(nA, nB int) {
 	dA := h.launch(ctx, eA, tgerr.FloodWaitWithClock(h.clocks["A"]))
 	dB := h.launch(ctx, eB, tgerr.FloodWaitWithClock(h.clocks["B"]))
 	deadline := time.Now().Add(c40Watchdog)
+	var rA, rB *c40CallRet
 	for {
 		now := h.timerCounts()
 		if now["A"]-before["A"]+now["B"]-before["B"] >= 2 {
 			if now["A"]-before["A"] != 1 {
 				c.Violate("history|concurrent-calls-shared-a-clock", h.witness(map[string]any{"new_timers_on_A": now["A"] - before["A"], "new_timers_on_B": now["B"] - before["B"]}))
 			}
+			break
+		}
+		// no fake time has passed yet: a call that is already back did not wait at all
+		select {
+		case r := <-dA:
+			rA = &r
+		case r := <-dB:
+			rB = &r
+		default:
+		}
+		if rA != nil || rB != nil {
+			c.Violate("history|concurrent-call-returned-without-waiting", h.witness(map[string]any{"A_returned": rA != nil, "B_returned": rB != nil}))
 			break
 		}
 		if time.Now().After(deadline) {
@@ -222,16 +235,34 @@ func (h *c40Hist) pair(nA, nB int) {
 		time.Sleep(time.Millisecond)
 	}
 	// let both finish
-	for i := 0; i < 2; i++ {
-		h.clocks["A"].Travel(time.Duration(nA+nB+2) * time.Second)
-		h.clocks["B"].Travel(time.Duration(nA+nB+2) * time.Second)
-	}
-	for _, d := range []chan c40CallRet{dA, dB} {
-		select {
-		case <-d:
-		case <-time.After(c40Watchdog):
-			c.Inconclusive("c40 history: concurrent pair did not finish within the watchdog")
-			return
+	cancelled := false
+	for _, d := range []struct {
+		ch  chan c40CallRet
+		got *c40CallRet
+	}{{dA, rA}, {dB, rB}} {
+		if d.got != nil {
+			continue
+		}
+		fin := false
+		for i := 0; i < 200 && !fin; i++ {
+			h.clocks["A"].Travel(time.Duration(nA+nB+2) * time.Second)
+			h.clocks["B"].Travel(time.Duration(nA+nB+2) * time.Second)
+			select {
+			case <-d.ch:
+				fin = true
+			case <-time.After(5 * time.Millisecond):
+			}
+		}
+		if !fin && !cancelled {
+			// waits on neither fake clock (a verdict or an inconclusive was already recorded above): stop it
+			cancel()
+			cancelled = true
+			select {
+			case <-d.ch:
+			case <-time.After(c40Watchdog):
+				c.Inconclusive("c40 history: concurrent pair did not finish within the watchdog")
+				return
+			}
 		}
 	}
 }
